@@ -670,3 +670,52 @@ func ruleSendWholeMessages(c *chk.Ctx) {
 	c.Floor("PROV.send", 3, "encode, client send, client callback reply")
 	c.Floor("PROV.nonempty", 2, "encode and client send")
 }
+
+// ruleBareObject: the list encoder emits the bare object exactly when
+// len == 1 ∧ ¬batch.
+func ruleBareObject(c *chk.Ctx) {
+	encs := encoderFuncs(c)
+	for f := range encs {
+		if _, isSlice := f.Signature.Recv().Type().Underlying().(*types.Slice); !isSlice {
+			continue
+		}
+		n := 0
+		ir.Instrs(f, func(ins ssa.Instruction) {
+			r, ok := ins.(*ssa.Return)
+			if !ok {
+				return
+			}
+			v := ir.ReturnResult(r, 0)
+			e, ok := v.(*ssa.Extract)
+			if !ok {
+				return
+			}
+			call, ok := e.Tuple.(*ssa.Call)
+			if !ok || call.Call.StaticCallee() == nil || !encs[call.Call.StaticCallee()] {
+				return
+			}
+			n++
+			var kinds []string
+			for _, cd := range ir.CondsAt(r.Block()) {
+				if bo, ok := cd.V.(*ssa.BinOp); ok {
+					if _, isLen := ir.LenOf(bo.X); isLen {
+						k, _ := ir.ConstInt(bo.Y)
+						kinds = append(kinds, fmt.Sprintf("len%s%d:%v", bo.Op, k, cd.Truth))
+						continue
+					}
+				}
+				if chk.LoadsField(cd.V, c.M.JBatch) {
+					kinds = append(kinds, fmt.Sprintf("batch:%v", cd.Truth))
+					continue
+				}
+				kinds = append(kinds, "other")
+			}
+			want := map[string]bool{"len==1:true": true, "batch:false": true}
+			ok2 := len(kinds) == 2 && want[kinds[0]] && want[kinds[1]] && kinds[0] != kinds[1]
+			c.Check(ok2, "TABLE.bare", f, "bare object iff single non-batch", r.Pos(), "the single-object form is returned exactly under len == 1 ∧ ¬batch", "the single-object form is returned under ["+strings.Join(kinds, " ∧ ")+"], not exactly len == 1 ∧ ¬batch: an array request could be answered with a bare object or vice versa")
+		})
+		if n == 0 {
+			c.Undecided("TABLE.bare", f, "bare object iff single non-batch", f.Pos(), "no direct return of the element encoder's result found")
+		}
+	}
+}
